@@ -97,3 +97,14 @@ CHECKS["C15"] = dict(
     technique="TLA+ grammar/envelope cases (TLC) replayed on the real CLI with/without -f; absence, consistency, plan-summary and flag-off-equality judges")
 
 NOT_YET = {}
+
+CHECKS["C10"] = dict(
+    level="model_checking",
+    text="The walker specification predicts, per TLC-generated state (envelope walk, grammar seeds, table walk), which string leaves "
+         "placeholder mode replaces; every state is run through the real CLI in placeholder mode, in --encrypt mode with a fresh key file "
+         "and again in a separate process with that key file. Verdict, leaf by leaf: out_enc[p] = out_plain[p] = in[p], or out_plain[p] is "
+         "a placeholder and the real Decrypt of out_enc[p] gives in[p]; equal plaintexts <=> equal ciphertexts across lines and processes "
+         "(near-duplicate literals with a 40-character common prefix); numbers, booleans, shape identical. Fail-closed: the same cases "
+         "in-process with three unusable key materials must give exactly the placeholder-mode output.",
+    design="5 C10", note=L3_NOTE + " The in-process overlay driver is trusted for Decrypt and for injecting key material through the option setters.",
+    technique="TLC-generated cases replayed on the real CLI in placeholder and encrypt mode (two processes, one key file); leaf-wise equivalence, determinism, injectivity, fail-closed with injected unusable keys")
